@@ -39,3 +39,11 @@ pub proof fn lemma_bad_is_response(sent0: Seq<u8>, sent: Seq<u8>)
         assert(is_response(b));
     }
 }
+
+// the legacy entry point returns the bytes it wrote: when the write reported success they are on the wire in full
+pub open spec fn delivered_in_full(ok: bool, before: Seq<u8>, after: Seq<u8>, bytes: Seq<u8>) -> bool { ok ==> after == before + bytes }
+
+// Server::process hands the application's response to the serialiser as it received it
+pub open spec fn forwards_unchanged(bytes: Seq<u8>, r: Response, method: Seq<char>) -> bool {
+    bytes == response_bytes(r.http_version@, r.status_code, r.reason_phrase@, hvs(r.headers@), r.content_range_list@, method)
+}
